@@ -102,6 +102,14 @@ def crafted_output_triples():
     out.append((nb(b), nb(l2), nb(r2)))
     b3 = [st('a\n'), er(plain, html)]; l3 = [st('a\n'), er(plain + 'L\n', html + '<i>L</i>\n')]; r3 = [st('a\n'), er('R\n' + plain, '<i>R</i>\n' + html)]
     out.append((nb(b3), nb(l3), nb(r3)))
+    # atomic conflicts two and three levels below the outputs list (a binary mime payload, a scalar of the output's
+    # metadata, a scalar nested in the metadata of one mime type), alone and next to a stream output that only one side edits:
+    # the decision then sits at outputs/<i>/data resp. outputs/<i>/metadata and a collecting strategy has to re-root it
+    def dd(png, md=None, txt='<Figure>'): return {'output_type': 'display_data', 'metadata': md or {}, 'data': {'text/plain': txt, 'image/png': png}}
+    out.append((nb([dd('AAAA')]), nb([dd('BBBB')]), nb([dd('CCCC')])))
+    out.append((nb([dd('AAAA', {'w': 1})]), nb([dd('AAAA', {'w': 2})]), nb([dd('AAAA', {'w': 3})])))
+    out.append((nb([dd('AAAA', {'image/png': {'width': 1}})]), nb([dd('AAAA', {'image/png': {'width': 2}})]), nb([dd('AAAA', {'image/png': {'width': 3}})])))
+    out.append((nb([st('a\n'), dd('AAAA', {'w': 1})]), nb([st('a\nL\n'), dd('BBBB', {'w': 2})]), nb([st('a\n'), dd('CCCC', {'w': 3})])))
     return out
 
 CONFIG_KINDS = ('by_field', 'casefold', 'head', 'mixed', 'by_field')
